@@ -262,16 +262,24 @@ class CorrSim:
         def q(t):
             return int(round(t * Q))
         parts = []
-        parts.append('store[' + ' '.join('%s@%d=%s' % (k, q(v[0]), self.show(v[1])) for k, v in c._store.items()) + ']')
-        parts.append('seg[' + ' '.join('%s=%d.%d' % (k, v[0], v[1]) for k, v in c._segment_store.items()) + ']')
-        parts.append('status[' + ' '.join(
+
+        def part(name, fn):
+            # a store whose entries do not have the expected shape is an observation (it differs from the model's dump),
+            # not a failure of the harness
+            try:
+                parts.append(name + '[' + fn() + ']')
+            except Exception as e:      # noqa
+                parts.append('%s[unreadable:%s]' % (name, type(e).__name__))
+        part('store', lambda: ' '.join('%s@%d=%s' % (k, q(v[0]), self.show(v[1])) for k, v in c._store.items()))
+        part('seg', lambda: ' '.join('%s=%d.%d' % (k, v[0], v[1]) for k, v in c._segment_store.items()))
+        part('status', lambda: ' '.join(
             '%s=(%s)/%d/%s/%s' % (k, ','.join('%s=%d' % kv for kv in st.status.items()), st.orig_submit_sm.sequence_num,
                                   'none' if st.last_response is None else self.show(st.last_response),
                                   'none' if st.last_receipt is None else self.show(st.last_receipt))
-            for k, st in c._segment_status_store.items()) + ']')
-        parts.append('deliv[' + ' '.join('%s@%d=%d/%d' % (nats(k), q(v[0]), v[1].sequence_num, untok(v[1].log_id))
-                                         for k, v in c._delivery_store.items()) + ']')
-        parts.append('dseg[' + ' '.join(
+            for k, st in c._segment_status_store.items()))
+        part('deliv', lambda: ' '.join('%s@%d=%d/%d' % (nats(k), q(v[0]), v[1].sequence_num, untok(v[1].log_id))
+                                       for k, v in c._delivery_store.items()))
+        part('dseg', lambda: ' '.join(
             '%s@%d=%s' % (k, q(v[0]), ','.join('%s.%s' % (sk, nats(sv)) for sk, sv in v[1].items()))
-            for k, v in c._delivery_segment_store.items()) + ']')
+            for k, v in c._delivery_segment_store.items()))
         return 'c.dump', 'ok ' + ' '.join(parts)
